@@ -330,14 +330,15 @@ def traceOf (u : Nat) (evs : List Ev) : List Cb :=
 def updatesOf (evs : List Ev) : List Nat :=
   (evs.filter (fun e => e.cb == .update)).map (·.uid)
 
-/-- well-formed history: a system is only added under a name no present system has
-(the manager indexes systems by name; `System<T>::systemName()` is the type name). -/
+/-- an op is well-formed in `m`: a system is added only under a name no registered system has
+(the manager indexes systems by name; `System<T>::systemName()` is the type name) -/
+def opWf (m : Mgr) : Op → Bool
+  | .add name _ _ => !(m.systems.map (·.name)).contains name
+  | _ => true
+
+/-- well-formed history: every op is well-formed in the state it is issued in -/
 def wfFrom : Mgr → List Op → Bool
   | _, [] => true
-  | m, op :: ops =>
-    (match op with
-     | .add name _ _ => !(m.systems.map (·.name)).contains name
-     | _ => true)
-    && wfFrom (step m op).1 ops
+  | m, op :: ops => opWf m op && wfFrom (step m op).1 ops
 
 end Mustache.Systems
